@@ -2420,13 +2420,24 @@ func runC11SharedStopErr(c *Ctx) {
 			continue
 		}
 		for _, g := range withAnon(fn) {
-			for _, ci := range calls(g, func(ci ssa.CallInstruction) bool {
-				return ci.Common().IsInvoke() && ci.Common().Method.Name() == "Shutdown"
+			// the wrapped call may live in a same-package helper of the method / of its once-closure; a helper
+			// that returns the error hands it to its caller, where the search for the field store goes on (robust_A6.go)
+			for _, dc := range deepCallsA6(g, 2, func(h *ssa.Function) []ssa.CallInstruction {
+				return calls(h, func(ci ssa.CallInstruction) bool {
+					return ci.Common().IsInvoke() && ci.Common().Method.Name() == "Shutdown"
+				})
 			}) {
+				ci := dc.call
 				n++
 				kept := false
 				seen := map[ssa.Value]bool{}
 				work := []ssa.Value{ci.Value()}
+				upTo := map[*ssa.Function]ssa.CallInstruction{}
+				for _, l := range dc.chain {
+					if !l.yield {
+						upTo[l.next] = l.at
+					}
+				}
 				for len(work) > 0 {
 					x := work[len(work)-1]
 					work = work[:len(work)-1]
@@ -2451,9 +2462,25 @@ func runC11SharedStopErr(c *Ctx) {
 										}
 									}
 								}
+								// a variable of the enclosing function captured by the closure: its loads there too
+								if fv, ok := y.Addr.(*ssa.FreeVar); ok {
+									if b := freeVarBinding(fv); b != nil && b.Referrers() != nil {
+										for _, ld := range *b.Referrers() {
+											if u, ok := ld.(*ssa.UnOp); ok && u.Op == token.MUL {
+												work = append(work, u)
+											}
+										}
+									}
+								}
 							}
 						case *ssa.Phi:
 							work = append(work, y)
+						case *ssa.Extract:
+							work = append(work, y)
+						case *ssa.Return:
+							if at := upTo[y.Parent()]; at != nil && at.Value() != nil {
+								work = append(work, at.Value())
+							}
 						}
 					}
 				}
